@@ -312,7 +312,22 @@ def w_model(case):
                 viol.append({'sub': 'red_score', 'message': 'score differs in '
                              'reduce form (%s)' % lab, 'expected': e_score,
                              'observed': s})
-            ds = np.asarray(ds, dtype=float)
+            # (the array handed out is the caller's: another evaluation, at other
+            # parameters and without upstream sensitivities, does not change it)
+            ds_obj, ds_snap = ds, np.array(ds, dtype=float, copy=True)
+            try:
+                _sens(m, spec, top * 1.01, obs.copy(), None, cov, reduce=True)
+            except Exception:
+                pass
+            ntr += 1
+            if np.shape(ds_obj) != ds_snap.shape or not np.array_equal(
+                    np.asarray(ds_obj, dtype=float), ds_snap, equal_nan=True):
+                viol.append({'sub': 'red_retained', 'message': 'the reduce-form '
+                             'sensitivities handed out earlier changed with the '
+                             'next evaluation (%s)' % lab, 'expected': ds_snap,
+                             'observed': np.asarray(ds_obj, dtype=float),
+                             'behaviour': 'retained'})
+            ds = ds_snap
             if ds.shape != (nb + nt,):
                 viol.append({'sub': 'red_len', 'message': 'reduce-form length is '
                              'not n_bottom + n_top (%s)' % lab,
